@@ -277,6 +277,71 @@ struct Explorer {
         for (auto &st : layer) delete st.obj;
     }
 
+    // Round-structured exploration: a round assigns one action out of `actions` ({a, b, tombstone} or {a, tombstone}) to each of the
+    // buffer_max_size+1 keys, in key order, so that every round flushes the buffer exactly once; BFS over rounds with canonical-state
+    // deduplication reaches merge cascades (in particular merges into an existing deepest level, where tombstones are dropped) that
+    // single-operation BFS only meets at depths it cannot afford. The oracle still runs after every single operation.
+    void bfs_rounds(int R, int actions, size_t max_states) {
+        std::vector<std::vector<Op>> macros;
+        size_t m = keys.size(), total = 1;
+        for (size_t i = 0; i < m; ++i) total *= size_t(actions);
+        for (size_t code = 0; code < total; ++code) {
+            std::vector<Op> mac; size_t c = code;
+            for (size_t k = 0; k < m; ++k, c /= actions) {
+                int a = int(c % actions);
+                if (a == actions - 1) mac.push_back({1, int(k), 0}); else mac.push_back({0, int(k), a});
+            }
+            macros.push_back(mac);
+        }
+        std::unordered_set<std::string> seen_round, seen_micro;
+        std::vector<State> layer;
+        {
+            State s; s.obj = make_initial({}, s.model);
+            run.add(cn.initial_states);
+            seen_round.insert(canon(*s.obj)); seen_micro.insert(canon(*s.obj)); run.add(cn.states);
+            layer.push_back(std::move(s));
+        }
+        bool sampled = false;
+        for (int round = 1; round <= R && !layer.empty(); ++round) {
+            std::vector<State> next;
+            for (auto &st : layer) {
+                if (run.deadline_passed() || seen_micro.size() >= max_states) { if (seen_micro.size() >= max_states) run.sh->capped.store(1); break; }
+                for (auto &mac : macros) {
+                    State ns; ns.model = st.model; ns.hist = st.hist; ns.obj = new Dyn(*st.obj);
+                    bool ok = true;
+                    for (auto &op : mac) {
+                        ns.hist.push_back(op);
+                        std::string cs = hist_str("", ns.hist);
+                        run.set_case(cs);
+                        size_t before = nonempty_levels(*ns.obj); bool buffer_full = ns.obj->levels[0].size() >= ns.obj->buffer_max_size;
+                        try { apply(*ns.obj, ns.model, op); }
+                        catch (const std::exception &e) { run.violation(cs, std::string("update threw: ") + e.what()); ok = false; break; }
+                        run.add(cn.transitions);
+                        if (buffer_full && ns.obj->levels[0].empty()) { run.add(cn.merges); if (before >= 3) run.add(cn.deep_merges); }
+                        std::string c = canon(*ns.obj);
+                        if (seen_micro.insert(c).second) {
+                            run.add(cn.states);
+                            if (nonempty_levels(*ns.obj) > (ns.obj->levels[0].empty() ? 0u : 1u)) run.add(cn.nontrivial);
+                            if (nonempty_levels(*ns.obj) >= 3) run.add(cn.levels3);
+                            ok = check_state(*ns.obj, ns.model, cs);
+                        } else { run.add(cn.dedup_hits); ok = implied_model_matches(*ns.obj, ns.model, cs); }
+                        if (!ok) break;
+                    }
+                    if (ok && seen_round.insert(canon(*ns.obj)).second) {
+                        if (!sampled && round == R) { run.sample(hist_str("", ns.hist) + " -> " + canon(*ns.obj)); sampled = true; }
+                        next.push_back(std::move(ns));
+                    } else delete ns.obj;
+                }
+            }
+            for (auto &st : layer) delete st.obj;
+            layer = std::move(next);
+            uint64_t depth = uint64_t(round) * m;
+            auto cur = run.sh->counters[cn.max_depth].load();
+            while (cur < depth && !run.sh->counters[cn.max_depth].compare_exchange_weak(cur, depth)) {}
+        }
+        for (auto &st : layer) delete st.obj;
+    }
+
     void replay(const std::map<std::string, std::string> &m) {
         auto init = parse_init(m.at("init"));
         Model model;
@@ -301,6 +366,7 @@ struct Explorer {
 struct TypeEntry {
     const char *name; int tier;
     void (*run_bfs)(Run &, Cn &, int prop, DynCfg, int keyset, int init_id, int D, size_t max_states, int prefix);
+    void (*run_rounds)(Run &, Cn &, int prop, DynCfg, int keyset, int R, int actions, size_t max_states);
     void (*replay)(Run &, Cn &, int prop, const std::map<std::string, std::string> &);
     int (*num_inits)(int keyset);
 };
@@ -312,6 +378,8 @@ template<typename K> std::vector<K> keyset(int id) {
         case 1: return {K(10), K(11), K(13), K(20), K(21)};
         case 2: return {lo, K(lo + 1), K(100), K(hi - 1), hi};
         case 3: return {K(10), K(11), K(13), K(20), K(21), K(30), K(31)};                       // 5 keys + fillers, deep starts
+        case 4: return {K(10), K(11), K(13), K(20), K(21), K(30)};                               // buffer of 5 (base 4, buffer_level 1) + 1
+        case 5: return {K(10), K(11), K(13), K(20), K(21), K(30), K(31), K(33)};                 // buffer of 7 (base 2, buffer_level 2) + 1
         default: return {K(5), K(6)};
     }
 }
@@ -353,6 +421,10 @@ struct Thunk {
         auto inits = initial_states<K>(ks_id);
         ex.bfs(inits[init_id], D, max_states, prefix);
     }
+    static void run_rounds(Run &r, Cn &c, int prop, DynCfg cfg, int ks_id, int R, int actions, size_t max_states) {
+        Explorer<K, V, PGMType> ex(r, c, prop, name(), cfg, keyset<K>(ks_id));
+        ex.bfs_rounds(R, actions, max_states);
+    }
     static void replay(Run &r, Cn &c, int prop, const std::map<std::string, std::string> &m) {
         DynCfg cfg{uint8_t(atoi(m.at("base").c_str())), uint8_t(atoi(m.at("buf").c_str())), uint8_t(atoi(m.at("idx").c_str()))};
         Explorer<K, V, PGMType> ex(r, c, prop, name(), cfg, mc::parse_keys<K>(m.at("keys")));
@@ -360,7 +432,7 @@ struct Thunk {
     }
     static int num_inits(int ks_id) { return int(initial_states<K>(ks_id).size()); }
 };
-#define TYPE(NAME, TIER, K, V, ...) [] { Thunk<K, V, __VA_ARGS__>::name() = NAME; return TypeEntry{NAME, TIER, &Thunk<K, V, __VA_ARGS__>::run_bfs, &Thunk<K, V, __VA_ARGS__>::replay, &Thunk<K, V, __VA_ARGS__>::num_inits}; }()
+#define TYPE(NAME, TIER, K, V, ...) [] { Thunk<K, V, __VA_ARGS__>::name() = NAME; return TypeEntry{NAME, TIER, &Thunk<K, V, __VA_ARGS__>::run_bfs, &Thunk<K, V, __VA_ARGS__>::run_rounds, &Thunk<K, V, __VA_ARGS__>::replay, &Thunk<K, V, __VA_ARGS__>::num_inits}; }()
 
 static std::vector<TypeEntry> types() {
     return {
@@ -372,7 +444,7 @@ static std::vector<TypeEntry> types() {
     };
 }
 
-struct Task { int type, keyset, init, D; DynCfg cfg; size_t max_states; int prefix = 0; };
+struct Task { int type, keyset, init, D; DynCfg cfg; size_t max_states; int prefix = 0; int rounds = 0, actions = 0; };
 
 int main(int argc, char **argv) {
     auto opt = mc::parse_args(argc, argv);
@@ -425,18 +497,25 @@ int main(int argc, char **argv) {
                 }
         }
         if (thorough) for (auto &c : cfgs_t) add_cfg(c, int(t), Dt - 1, false, 0);
+        // round-structured exploration: (cfg, key set with buffer_max_size+1 keys, rounds, actions per key)
+        struct RoundSpec { DynCfg cfg; int ks, R, actions; };
+        std::vector<RoundSpec> rs = {{{2, 1, 2}, 0, thorough ? 7 : 5, 3}, {{4, 1, 2}, 4, thorough ? 4 : 3, 2}, {{4, 1, 2}, 4, 2, 3}, {{2, 2, 3}, 5, thorough ? 3 : 2, 2}, {{4, 1, 3}, 4, thorough ? 4 : 3, 2}};
+        if (thorough) { rs.push_back({{2, 1, 3}, 0, 7, 3}); rs.push_back({{2, 2, 3}, 5, 2, 3}); }
+        for (auto &r : rs) { Task tk{int(t), r.ks, 0, 99, r.cfg, thorough ? size_t(4000000) : size_t(600000)}; tk.rounds = r.R; tk.actions = r.actions; tasks.push_back(tk); }
     }
     // largest tasks first
     std::stable_sort(tasks.begin(), tasks.end(), [](const Task &a, const Task &b) { return a.D > b.D; });
     run.run_tasks(tasks.size(), [&](uint64_t i) {
         auto &t = tasks[i];
-        if (!run.deadline_passed()) ty[t.type].run_bfs(run, cn, prop, t.cfg, t.keyset, t.init, t.D, t.max_states, t.prefix);
+        if (run.deadline_passed()) return;
+        if (t.rounds) ty[t.type].run_rounds(run, cn, prop, t.cfg, t.keyset, t.rounds, t.actions, t.max_states);
+        else ty[t.type].run_bfs(run, cn, prop, t.cfg, t.keyset, t.init, t.D, t.max_states, t.prefix);
     });
 
     mc::Run::EvidenceExtra ev;
     ev.states_counter = "distinct_canonical_states"; ev.transitions_counter = "transitions_executed"; ev.nontrivial_counter = "states_with_data_below_the_buffer";
     ev.rule = "breadth-first search over all histories of insert_or_assign(k,v)/erase(k), k from a key set of 4-7 colliding keys (adjacent keys, gaps, the extremes of the key type), v from 2 values, on the real DynamicPGMIndex copied per transition; "
-              "initial states: empty, every bulk-load of 1..3 sorted pairs with repeated keys, bulk-loads of 9 and 12 pairs landing two levels below the buffer, and non-initial starts reached by a fixed prefix of 11/15/19 round-robin inserts (so that the next merges cascade through three and four levels); configurations (base,buffer_level,index_level) with a 3-entry buffer and 4/8/16-entry levels so that depth-" + std::to_string(thorough ? Dt : Dq) +
+              "initial states: empty, every bulk-load of 1..3 sorted pairs with repeated keys, bulk-loads of 9 and 12 pairs landing two levels below the buffer, and non-initial starts reached by a fixed prefix of 11/15/19 round-robin inserts (so that the next merges cascade through three and four levels), plus round-structured search (one action out of {a,b,tombstone} per key for buffer_max_size+1 keys per round, so that every round flushes the buffer once; 2-7 rounds) which reaches merges into an existing deepest level where tombstones are dropped; configurations (base,buffer_level,index_level) with a 3-entry buffer and 4/8/16-entry levels so that depth-" + std::to_string(thorough ? Dt : Dq) +
               " histories cascade through three levels and small levels own a PGM-index; key/value/index types arithmetic, pointer and std::string values. A state is a distinct canonical form (used_levels + per-level list of key/value-or-tombstone); after every transition the property's oracle runs against std::map" +
               (prop == 5 ? " (find, count, lower_bound for every alphabet key and its neighbours)" : prop == 6 ? " (iteration from begin() and from every lower_bound to end(), range() for every lo<=hi of the query alphabet, size(), empty())" : " (sortedness, capacities, empty levels beyond used_levels, per-level index built over exactly the level's keys and answering the search contract, emptied levels' indexes reset)") +
               ". Non-trivial: the state holds data in a level below the buffer.";
